@@ -78,6 +78,22 @@ def _inline_guard(tree) -> bool:
     return pos_guard is not None and pos_backend is not None and pos_guard < pos_backend
 
 
+def _inline_sampling_guard(tree) -> bool:
+    """`_Inline.propagate_values` returns early when a node of the inlined graph is listed in `_NON_DETERMINISTIC_OPS`."""
+    f = _func(tree, "_Inline", "propagate_values")
+    if f is None:
+        return False
+    pos_guard = pos_backend = None
+    for st in f.body:
+        names = {n.attr for n in ast.walk(st) if isinstance(n, ast.Attribute)}
+        ids = {n.id for n in ast.walk(st) if isinstance(n, ast.Name)}
+        if pos_guard is None and isinstance(st, ast.If) and "_NON_DETERMINISTIC_OPS" in ids and "op_type" in names and isinstance(st.body[-1], ast.Return):
+            pos_guard = st.lineno
+        if pos_backend is None and "get_backend_calls" in names:
+            pos_backend = st.lineno
+    return pos_guard is not None and pos_backend is not None and pos_guard < pos_backend
+
+
 def _sampling():
     import onnx.defs
 
@@ -105,7 +121,7 @@ def _shipped(sampling):
 
 
 def extract() -> dict:
-    info = {"listed": ["<unparsed>"], "guardCalled": False, "inlineGuard": False, "sampling": [("<unavailable>", "<unavailable>")], "shipped": []}
+    info = {"listed": ["<unparsed>"], "guardCalled": False, "inlineGuard": False, "inlineSamplingGuard": False, "sampling": [("<unavailable>", "<unavailable>")], "shipped": []}
     try:
         tree = ast.parse((REPO / "src" / "spox" / "_standard.py").read_text())
         info["listed"] = _listed(tree)
@@ -113,7 +129,9 @@ def extract() -> dict:
     except Exception:  # noqa: BLE001 - degrade, never raise
         pass
     try:
-        info["inlineGuard"] = _inline_guard(ast.parse((REPO / "src" / "spox" / "_inline.py").read_text()))
+        itree = ast.parse((REPO / "src" / "spox" / "_inline.py").read_text())
+        info["inlineGuard"] = _inline_guard(itree)
+        info["inlineSamplingGuard"] = _inline_sampling_guard(itree)
     except Exception:  # noqa: BLE001
         pass
     try:
@@ -134,6 +152,7 @@ def generate() -> dict:
         + "def listed : List String :=\n  [" + ", ".join(lean_str(x) for x in info["listed"]) + "]\n\n"
         + f"def guardCalled : Bool := {'true' if info['guardCalled'] else 'false'}\n\n"
         + f"def inlineGuard : Bool := {'true' if info['inlineGuard'] else 'false'}\n\n"
+        + f"def inlineSamplingGuard : Bool := {'true' if info['inlineSamplingGuard'] else 'false'}\n\n"
         + "/-- (domain, name) of every schema with a `seed` attribute or a sampling name. -/\n"
         + "def sampling : List (String × String) :=\n  " + pairs(info["sampling"]) + "\n\n"
         + "/-- the sampling operators spox ships a constructor for. -/\n"
